@@ -25,4 +25,10 @@ PROPERTIES = {
         explanation="input type translator and default-literal translator against the image/coercion spec functions, by structural induction",
         assumptions=["acceptance/refusal of concrete values by the emitted annotations is pydantic's (assumed contract)"],
     ),
+    "C05": dict(
+        modules=["contracts.c05_result_fields"],
+        explanation="result field type translator against the image spec by structural induction (non-abstract positions), "
+                    "directive handling, typename literal",
+        assumptions=["rejection of corrupted payloads by the emitted annotations is pydantic's (assumed contract)"],
+    ),
 }
